@@ -2,42 +2,48 @@ from checks import both, EX
 
 CHECK = {
     'level': 'exploration',
-    'rule': ('closure generator over small scopes (one or two trees, pool of 4-9 elements over 1-4 key values, so most '
+    'rule': ('closure generator over small scopes (one or two trees, pool of 4-12 elements over 2-7 key values, so many '
              'elements compare equal), separately for cstl_bintree_* and cstl_rbtree_*: insert unhinted, insert hinted with '
-             'the parent reported by an immediately preceding find that missed, erase by probe for every key, clear and swap '
-             'are applied in every reachable state; in every newly reached state every find (with and without par, incl. keys '
-             'below/above all held ones) and FWD and REV foreach with the visitor stopping at every possible callback index are '
-             'run. Plus seeded random histories (2000-6000 calls, pools of 3-256 elements, 1-64 key values, ascending/'
-             'descending/organ-pipe/random fill phases and alternating/ascending/descending/random drain phases). After every '
-             'call the return value is compared with a reference multiset of element addresses; erased elements are poisoned '
-             'and freed; the full audit (size, FWD+REV traversal with per-element PRE/MID/POST/LEAF state machine and '
-             'monotonicity, link walker) runs after every call in closure mode and every 16th call in random mode. A case '
-             'is distinct by the tree signature (shape + key per node, + colour for the red-black tree) and non-trivial '
-             'when >= 2 elements are held; the same tree reached in two different closure scopes counts once per scope.'),
+             'the parent reported by an immediately preceding find of the same key (key absent: would-be parent; key present: '
+             'parent of the match, NULL when the match is the root), erase by probe for every key, clear and swap are applied in '
+             'every reachable state; in every newly reached state every find (with and without par, incl. keys below/above all '
+             'held ones) and FWD and REV foreach with the visitor stopping at every possible callback index are run. In the '
+             '"two-offsets" scopes the two trees link elements through different embedded nodes (an element can be held by '
+             'both), so swap has to carry the node offset. Plus seeded random histories (2000-6000 calls, pools of 3-256 '
+             'elements, 1-64 key values, ascending/descending/organ-pipe/random fill phases and alternating/ascending/'
+             'descending/random drain phases). After every call the return value is compared with a reference multiset of '
+             'element addresses; erased elements are poisoned and freed; the full audit (size, FWD+REV traversal with '
+             'per-element PRE/MID/POST/LEAF state machine and monotonicity, link walker) runs after every call in closure mode '
+             'and every 16th call in random mode. A case is distinct by the tree signature (shape + key per node, + colour for '
+             'the red-black tree) and non-trivial when >= 2 elements are held; the same tree reached in two different closure '
+             'scopes counts once per scope.'),
     'assumptions': ['comparison function is a total order on a small integer key (its result magnitude varies between cases)',
-                    'hinted inserts follow the protocol of cstl_map_insert: hint = the par out-parameter of an immediately '
-                    'preceding find of the same key that returned NULL, no mutation in between',
+                    'hinted inserts: hint = the par out-parameter of an immediately preceding find of the same key (found or '
+                    'not), no mutation in between, as documented in bintree.h/rbtree.h',
+                    'a library call that consumes 10 s of CPU time (not wall clock) without returning is reported as a hang',
                     'clear is always given a non-NULL callback',
                     'gcc 12 ASan/UBSan runtimes; harness reference model (unordered array of element pointers + per-key counts)',
                     'dbg-asan keeps the library asserts live; rel-asan is the NDEBUG build as shipped'],
     'runs': [
         {'harness': 'trees', 'mode': 'order', 'sources': ['harness/trees.c'] + EX,
-         'configs': both(['dbg-asan', 'rel-asan'])},
+         'configs': both(['dbg-asan', 'rel-asan']),
+         # typical (idle, 16 cores): quick 3-5 s, thorough 70-90 s per configuration; generous because verdicts never depend on it
+         'watchdog': {'quick': 1800, 'thorough': 7200}},
         # thorough only: the shipped (NDEBUG, -O2) build under valgrind memcheck with element nodes marked undefined;
         # the harness polls VALGRIND_COUNT_ERRORS after every operation (key <type>.memcheck.error)
         {'harness': 'trees', 'mode': 'order-mc', 'sources': ['harness/trees.c'] + EX,
-         'configs': both([], ['rel-plain'])},
+         'configs': both([], ['rel-plain']), 'watchdog': {'quick': 1800, 'thorough': 7200}},
     ],
 }
 
 LEVEL = {
     'text': ('Exploration: every reachable tree state of several small scopes (closure over insert/hinted insert/erase/clear/'
-             'swap, up to 7 elements quick / 9-10 thorough over 1-4 key values, both tree types) plus thousands of seeded random '
+             'swap, up to 7-12 elements quick / 8-20 thorough over 1-7 key values, both tree types, incl. two trees linking through different embedded nodes) plus thousands of seeded random '
              'histories with heavy key duplication are executed on the real library under ASan+UBSan in the assert-enabled and '
              'the NDEBUG build; find/erase/size results are compared with a reference multiset of element addresses after every '
              'call, traversals in both directions (and with every possible early stop in the small scopes) are checked for '
              'exactly-once, bracketing, order and stop value. Held means: on the executions observed.'),
-    'note': 'trusts gcc 12 sanitizer runtimes and the harness reference model; total-order comparator; hints only from a find that missed',
+    'note': 'trusts gcc 12 sanitizer runtimes and the harness reference model; total-order comparator; hints only from an immediately preceding find of the same key',
     'technique': 'runtime monitoring: closure + random workloads, reference-multiset oracle after every call, traversal monitor, link walker, ASan/UBSan',
     'design_ref': 'DESIGN.md section 3 (C01)',
 }
